@@ -371,6 +371,7 @@ def check(ctx):
 
 _XT = '        if o == ord("+") or o == ord("=") or o < 33 or o > 126:\n'
 MUTANTS = [
+    Mutant('payload-coder-class-strips-both-ends', IMAP, '    s_utf16 = s.encode("utf-16-be")\n    return binascii.b2a_base64(s_utf16).rstrip(b"\\n=").replace(b"/", b",")\n', '    coder = _PayloadCoder()\n    coder.feed(s)\n    return coder.finish()\n', more=[(IMAP, 'def modified_base64(s):\n', 'class _PayloadCoder:\n    def __init__(self):\n        self.parts = []\n\n    def feed(self, text):\n        self.parts.append(binascii.b2a_base64(text.encode("utf-16-be")))\n\n    def finish(self):\n        return b"".join(self.parts).strip(b"\\n=+").replace(b"/", b",")\n\n\ndef modified_base64(s):\n')], expect_rule='utf7/helper-payload'),
     Mutant("F41a-revert-str-literals", SMTP, _XT, '        if ch == "+" or ch == "=" or o < 33 or o > 126:\n', expect_rule="xtext/escape-set"),
     Mutant("xtext-del-raw", SMTP, _XT, '        if o == ord("+") or o == ord("=") or o < 33 or o > 127:\n', expect_rule="xtext/escape-set"),
     Mutant("xtext-space-raw", SMTP, _XT, '        if o == ord("+") or o == ord("=") or o < 32 or o > 126:\n', expect_rule="xtext/escape-set"),
@@ -403,6 +404,7 @@ MUTANTS = [
     Mutant("utf7-decoder-dash-direct", IMAP, '        elif c == b"-" and decode:\n', '        elif c == b"-":\n', expect_rule="utf7/decoder-transitions"),
 ]
 SILENT = [
+    Silent('payload-through-private-state-class', IMAP, '    s_utf16 = s.encode("utf-16-be")\n    return binascii.b2a_base64(s_utf16).rstrip(b"\\n=").replace(b"/", b",")\n', '    coder = _PayloadCoder()\n    coder.feed(s)\n    return coder.finish()\n', more=[(IMAP, 'def modified_base64(s):\n', 'class _PayloadCoder:\n    def __init__(self):\n        self.parts = []\n\n    def feed(self, text):\n        self.parts.append(binascii.b2a_base64(text.encode("utf-16-be")))\n\n    def finish(self):\n        return b"".join(self.parts).rstrip(b"\\n=").replace(b"/", b",")\n\n\ndef modified_base64(s):\n')]),
     Silent("xtext-set-membership", SMTP, _XT, '        if o in (0x2B, 0x3D) or not 33 <= o <= 126:\n'),
     Silent("xtext-as-comprehension", SMTP, "    r = []\n    for ch in iterbytes(s):\n        o = ord(ch)\n" + _XT +
            '            r.append(networkString(f"+{o:02X}"))\n        else:\n            r.append(bytes((o,)))\n    return (b"".join(r), len(s))\n',
